@@ -529,10 +529,17 @@ func randMessage(r *prng.Rng, md protoreflect.MessageDescriptor, o genOpts) *dyn
 	}
 	// proto2 extensions of this message type (scalar, enum, string/bytes, message)
 	if o.exts != nil && md.ExtensionRanges().Len() > 0 {
+		// (the registry hands them out in Go-map order: sorted by number, so that a seed replays the same values)
+		var xts []protoreflect.ExtensionType
 		o.exts.RangeExtensionsByMessage(md.FullName(), func(xt protoreflect.ExtensionType) bool {
+			xts = append(xts, xt)
+			return true
+		})
+		sort.Slice(xts, func(i, j int) bool { return xts[i].TypeDescriptor().Number() < xts[j].TypeDescriptor().Number() })
+		for _, xt := range xts {
 			xd := xt.TypeDescriptor()
 			if !r.Chance(1, 2) {
-				return true
+				continue
 			}
 			if xd.IsList() {
 				// a repeated extension: the runtimes hold a slice (an empty one is "not set")
@@ -551,15 +558,14 @@ func randMessage(r *prng.Rng, md protoreflect.MessageDescriptor, o genOpts) *dyn
 				if l.Len() > 0 {
 					m.Set(xd, protoreflect.ValueOfList(l))
 				}
-				return true
+				continue
 			}
 			if xd.Message() != nil {
 				m.Set(xd, protoreflect.ValueOfMessage(subMessage(r, xd.Message(), o)))
 			} else {
 				m.Set(xd, randScalar(r, xd))
 			}
-			return true
-		})
+		}
 	}
 	return m
 }
